@@ -2073,6 +2073,10 @@ pub struct SstMultiBuilder {
     options: SstOptions,
     builder: Option<SstBuilder>,
     paths: Vec<PathBuf>,
+    // The last key written to the most recently sealed sst.  The next sst starts from it so that
+    // sort order is enforced across ssts, too.
+    last_key: Vec<u8>,
+    last_timestamp: u64,
 }
 
 impl SstMultiBuilder {
@@ -2085,7 +2089,18 @@ impl SstMultiBuilder {
             options,
             builder: None,
             paths: Vec::new(),
+            last_key: Vec::new(),
+            last_timestamp: u64::MAX,
         }
+    }
+
+    fn seal_builder(&mut self) -> Result<(), SError> {
+        if let Some(builder) = self.builder.take() {
+            self.last_key.clone_from(&builder.last_key);
+            self.last_timestamp = builder.last_timestamp;
+            builder.seal()?;
+        }
+        Ok(())
     }
 
     /// Provide a hint that this would be a good spot to split to create a new sst.
@@ -2093,8 +2108,7 @@ impl SstMultiBuilder {
         if self.builder.is_some() {
             let size = self.builder.as_mut().unwrap().approximate_size();
             if size >= TABLE_FULL_SIZE || size >= self.options.minimum_file_size {
-                let builder = self.builder.take().unwrap();
-                builder.seal()?;
+                self.seal_builder()?;
             }
         }
         Ok(())
@@ -2104,8 +2118,7 @@ impl SstMultiBuilder {
         if self.builder.is_some() {
             let size = self.builder.as_mut().unwrap().approximate_size();
             if size >= TABLE_FULL_SIZE || size >= self.options.target_file_size {
-                let builder = self.builder.take().unwrap();
-                builder.seal()?;
+                self.seal_builder()?;
                 return self.get_builder();
             }
             return Ok(self.builder.as_mut().unwrap());
@@ -2115,7 +2128,10 @@ impl SstMultiBuilder {
             .join(PathBuf::from(format!("{}{}", self.counter, self.suffix)));
         self.paths.push(path.clone());
         self.counter += 1;
-        self.builder = Some(SstBuilder::new(self.options.clone(), path)?);
+        let mut builder = SstBuilder::new(self.options.clone(), path)?;
+        builder.last_key.clone_from(&self.last_key);
+        builder.last_timestamp = self.last_timestamp;
+        self.builder = Some(builder);
         Ok(self.builder.as_mut().unwrap())
     }
 }
